@@ -22,7 +22,25 @@ func scFrom(v *big.Int) *secp256k1.Scalar {
 	return s
 }
 
-func scHex(s *secp256k1.Scalar) string { return hx(s.Bytes()) }
+// scHex is the canonical encoding of s.  It also watches the INTERNAL representation: the Montgomery limbs of every scalar the
+// harness looks at must be the canonical residue v*R mod n (a value like n itself in the limbs encodes to 0 but is not zero for
+// IsZero / Equal).  Every anomaly, and a sample of the normal cases, is logged as an sc.Canon event; TLC decides.
+func scHex(s *secp256k1.Scalar) string {
+	b := s.Bytes()
+	if canonSink != nil {
+		canonSeen++
+		fresh, err := secp256k1.NewScalarFromCanonicalBytes((*[32]byte)(b))
+		odd := err != nil || fresh.VerifMont() != s.VerifMont() || fresh.Equal(s) != 1 || (s.IsZero() == 1) != (new(big.Int).SetBytes(b).Sign() == 0)
+		if odd || canonSeen%97 == 0 {
+			eq := -1
+			if err == nil {
+				eq = int(fresh.Equal(s))
+			}
+			canonSink.E("sc.Canon", "v", hx(b), "mont", h32(limbsToBig(s.VerifMont())), "iszero", int(s.IsZero()), "eq_fresh", eq)
+		}
+	}
+	return hx(b)
+}
 
 func scJunk(r *rand.Rand) *secp256k1.Scalar {
 	return scFrom(add(randBig(r, add(bigN, -1)), 1))
